@@ -70,27 +70,9 @@ theorem bodyEnvs_dist (hash : Tuple → Nat) (n : Nat) (hn : 0 < n) (lk : String
 
 /-! ### the engine's own clause evaluation of a partition-safe clause -/
 
-theorem posWithIdx_snd : ∀ (body : List Lit) (i : Nat),
-    (posWithIdx body i).map (·.2) = body.filterMap (fun | .pos a => some a | _ => none)
-  | [], _ => rfl
-  | .pos a :: ls, i => by simp [posWithIdx, posWithIdx_snd ls (i + 1)]
-  | .neg a :: ls, i => by simp [posWithIdx, posWithIdx_snd ls (i + 1)]
-  | .cmp o x y :: ls, i => by simp [posWithIdx, posWithIdx_snd ls (i + 1)]
-
-/-- no join, no push-down. -/
-theorem pushPlan_single (r : Rule) (fs : List Cmp) (hpos : r.posAtoms.length ≤ 1) : pushPlan r fs = none := by
-  unfold pushPlan
-  have hl : (posWithIdx r.body 0).length ≤ 1 := by
-    have := congrArg List.length (posWithIdx_snd r.body 0)
-    simp only [List.length_map] at this
-    rw [this]; exact hpos
-  match hm : posWithIdx r.body 0, hl with
-  | [], _ => rfl
-  | [(bi, a)], _ => simp [joinLevels]
-
 /-- the body of a clause with ≤ 1 positive atom and no negated atom, as the engine evaluates it:
     per-valuation computed columns and filters over the scan. -/
-theorem bodyEnvsM_single (lk : String → List Tuple) (r : Rule) (hpos : r.posAtoms.length ≤ 1) (hneg : r.negAtoms = []) :
+theorem bodyEnvsM_single (lk : String → List Tuple) (r : Rule) (_hpos : r.posAtoms.length ≤ 1) (hneg : r.negAtoms = []) :
     bodyEnvsM true lk r =
       match buildCmps r.posVars r.cmps with
       | none => none
@@ -104,8 +86,7 @@ theorem bodyEnvsM_single (lk : String → List Tuple) (r : Rule) (hpos : r.posAt
   | none => rfl
   | some cf =>
     obtain ⟨cols, fs⟩ := cf
-    simp only [pushPlan_single r fs hpos, ite_self, withFilters, evalPosF_trivial, Option.isSome_none,
-      Bool.false_eq_true, if_false, hneg, evalNegs_nil]
+    simp only [hneg, evalNegs_nil]
     rfl
 
 theorem evalRuleM_dist (hash : Tuple → Nat) (n : Nat) (hn : 0 < n) (lk : String → List Tuple) (r : Rule)
